@@ -20,6 +20,7 @@ from harness.core import Ctx, VERIF, cz, cbool, clist, guarded, pmap
 ID = "C10"
 ANCHORS = ["solvor/hungarian.py", "solvor/utils/helpers.py"]
 IMPORTS = "From SV Require Import C10.Hungarian C10.HungarianSpec."
+TIMEOUT = 1.0   # seconds per call; a 12x12 instance takes < 5 ms
 ZERO_COLS = "C10-zero-cols"   # rows > 0, cols = 0: code returns [] instead of [-1]*rows
 
 
@@ -127,7 +128,7 @@ def call_impl(case):
 
 
 def run_one(case):
-    res = guarded(call_impl, case, timeout=5)
+    res = guarded(call_impl, case, timeout=TIMEOUT)
     if res[0] != "ok":
         return {"outcome": res[0], "detail": list(res[1:])}
     v = res[1]
@@ -223,10 +224,13 @@ def judge(item):
     return out, oracle(case, out, enum_limit)
 
 
-def shrink(case, enum_limit):
+def shrink(case, enum_limit, budget_s=20.0):
     """Greedy: drop rows / columns, then move entries towards 0, while the oracle still complains."""
+    import time
+    t_end = time.time() + budget_s
+
     def bad(c):
-        if not c["num"] or not c["num"][0]:
+        if not c["num"] or not c["num"][0] or time.time() > t_end:
             return False
         return oracle(c, run_one(c), enum_limit) is not None
 
@@ -349,8 +353,10 @@ def run(ctx: Ctx):
                     and (entry is None or entry.get("status") == "open")):
                 ctx.known_hit(ZERO_COLS, f"solve_hungarian({to_input(case)!r}) returns [] (one entry per row expected: {[-1] * nr}); "
                                          "the early return `not cost_matrix[0]` drops the rows")
+            elif len(ctx.violations) >= 5:
+                ctx.count("violations_not_listed", bad[0])
             else:
-                small = shrink(case, enum_limit) if bad[0] != "returns" else case
+                small = shrink(case, enum_limit, 20.0 if len(ctx.violations) < 2 else 3.0)
                 o2 = run_one(small)
                 b2 = oracle(small, o2, enum_limit) or bad
                 ctx.violation(f"solve_hungarian violates C10 ({b2[0]}): {b2[1]}",
